@@ -114,7 +114,8 @@ def check_corr_and_mse(ctx, rng):
     tn = np.array([[names[x] for x in r[1:]] for r in rows], dtype=str)
     td = np.array([[0.0 if x == 0 else float(x) for x in r[1:]] for r in rows])
     # a mapping batchie itself could have produced for a superset, with sample ids not in name order
-    smap = (np.array(["s0", "s1", "s2"], dtype=str), np.array(list(rng.permutation(3)), dtype=int)) if rng.random() < 0.7 else None
+    # (a 3-cycle: for an involution, looking a name up by position or by id gives the same answer)
+    smap = (np.array(["s0", "s1", "s2"], dtype=str), np.array([[1, 2, 0], [2, 0, 1]][int(rng.integers(2))], dtype=int)) if rng.random() < 0.75 else None
     scr = Screen(treatment_names=tn, treatment_doses=td, sample_names=np.array(["s%d" % r[0] for r in rows], dtype=str),
                  plate_names=np.array(["p"] * len(rows), dtype=str), observations=rng.uniform(0.1, 0.9, size=len(rows)), control_treatment_name="ctl",
                  sample_mapping=smap)
@@ -227,7 +228,7 @@ def run(ctx):
                 ctx.violation(msg, {"kind": "effect", "case": {"rows": e["rows"]}})
                 break
         ctx.traces += len(big)
-        for _ in range(3 if ctx.quick else 20):
+        for _ in range(6 if ctx.quick else 30):
             msg = check_corr_and_mse(ctx, rng)
             if msg:
                 ctx.violation(msg, {"kind": "corr"})
